@@ -331,7 +331,12 @@ func (multi *MultiEpoch) handleGetBlock(ctx context.Context, conn *requestContex
 						}
 						// if the commission field is a string, convert it to a float
 						if asString, ok := rewardAsMap["commission"].(string); ok {
-							rewardAsMap["commission"] = asFloat(asString)
+							if commission, ok := asFloat(asString); ok {
+								rewardAsMap["commission"] = commission
+							} else {
+								// not a number: treat it like a missing commission
+								rewardAsMap["commission"] = nil
+							}
 						}
 						// if no lamports field, add it and set it to 0
 						if _, ok := rewardAsMap["lamports"]; !ok {
@@ -519,13 +524,13 @@ func (multi *MultiEpoch) handleGetBlock(ctx context.Context, conn *requestContex
 	return nil, nil
 }
 
-func asFloat(s string) float64 {
-	var f float64
+// asFloat parses a decimal number; ok is false when s does not start with one.
+func asFloat(s string) (f float64, ok bool) {
 	_, err := fmt.Sscanf(s, "%f", &f)
 	if err != nil {
-		panic(err)
+		return 0, false
 	}
-	return f
+	return f, true
 }
 
 func mergeTxNodeSlices(slices [][]*ipldbindcode.Transaction) []*ipldbindcode.Transaction {
